@@ -24,6 +24,8 @@ pub struct Profile {
     pub w_ser: u32,
     /// evaluate the tracing relation of a random user key on the real scalars
     pub w_trace: u32,
+    /// refresh attempts with copies of issued user keys altered outside the library
+    pub w_forge: u32,
     /// percentage of deliberately malformed arguments
     pub malformed_pct: u32,
     /// percentage of hybridized attributes
@@ -55,6 +57,7 @@ impl Profile {
             w_mpk: 0,
             w_ser: 0,
             w_trace: 0,
+            w_forge: 0,
             malformed_pct: 10,
             hybrid_pct: 30,
             matrix_often: false,
@@ -527,6 +530,25 @@ impl HistGen {
         let i = self.rng.below(self.next_u);
         self.emit(format!("trace_check U{i}"));
     }
+    pub fn op_forge(&mut self) {
+        if self.next_u == 0 || self.next_u + 3 >= self.p.max_keys * 3 {
+            return;
+        }
+        let src = self.rng.below(self.next_u);
+        let forged = self.next_u;
+        let out = self.next_u + 1;
+        self.next_u += 2;
+        let kind = *self.rng.pick(&["sig", "strip", "drop"]);
+        let keep = self.rng.chance(1, 2);
+        self.emit(format!("forge U{src} U{forged} {kind}"));
+        self.emit(format!("refresh M0 U{forged} U{out} {}", if keep { 1 } else { 0 }));
+        // the genuine key must be unaffected by the refused attempt
+        if self.rng.chance(1, 2) {
+            let out2 = self.next_u;
+            self.next_u += 1;
+            self.emit(format!("refresh M0 U{src} U{out2} {}", if keep { 1 } else { 0 }));
+        }
+    }
     pub fn op_mpk(&mut self) {
         let k = self.new_k();
         self.emit(format!("mpk M0 K{k}"));
@@ -579,7 +601,7 @@ impl HistGen {
         let p = self.p.clone();
         let ws = [
             p.w_edit, p.w_update, p.w_rekey, p.w_prune, p.w_keygen, p.w_refresh, p.w_encaps, p.w_recaps,
-            p.w_roundtrip, p.w_rollback, p.w_mpk, p.w_ser, p.w_trace,
+            p.w_roundtrip, p.w_rollback, p.w_mpk, p.w_ser, p.w_trace, p.w_forge,
         ];
         let tot: u32 = ws.iter().sum();
         let mut r = (self.rng.next() % tot as u64) as u32;
@@ -599,7 +621,8 @@ impl HistGen {
                     9 => self.op_rollback(),
                     10 => self.op_mpk(),
                     11 => self.op_ser(),
-                    _ => self.op_trace(),
+                    12 => self.op_trace(),
+                    _ => self.op_forge(),
                 }
                 if self.p.matrix_often && self.lines.len() > before && matches!(k, 5 | 6 | 7) {
                     self.emit("matrix".into());
